@@ -44,6 +44,23 @@ CHECKS = {
               "correctly hashing closure, keep every previously reachable object, parse index/config as old or new and never offer a half-written object."),
         note="Trusted: interposition layer incl. raw write visibility (LoggedFileIO), atomic system calls (no torn write(2)), ordered-metadata power-loss model restricted to one damaged unsynced file at a time.",
     ),
+    "C13": dict(
+        engine="E4 enum", category="exploration",
+        technique="exhaustive enumeration of all DAGs up to n commits x all weak orderings of their timestamps; brute-force transitive closure + C git as oracles",
+        text=("All labelled DAGs with n<=4 commits (<=3 parents) x all weak orderings of timestamps (thorough: n=5 x all 541 orderings, n=6 restricted), all ordered pairs/triples/subsets as queries "
+              "to find_merge_base / find_octopus_base / can_fast_forward / independent, walker option matrix (order, reverse, max_entries, since/until, excludes); answers compared with the "
+              "graph-theoretic ones and with git merge-base / rev-list on the identical objects, with and without a commit-graph."),
+        note="Trusted: engines/refmodels/dag.py (never disagreed with git on 651k queries), git 2.39.5. Walker exclusion/cut-offs are only required exact under non-decreasing clocks, as the statement says.",
+    ),
+    "C16": dict(
+        engine="E3 statespace + E4 enum", category="model_checking",
+        technique="explicit-state BFS over ref-operation histories on real backends against a map model (fresh, warm and bystander containers); exhaustive ref-name enumeration against git check-ref-format",
+        text=("BFS over canonical storage states of the files backend (directory snapshot incl. loose/packed layout; quick depth 4, thorough to closure), the dict backend and the reftable backend, "
+              "~56 operations per state over names that collide as file/directory, symref chains/loops and packing; every transition runs on a fresh, a cache-warm and a bystander container "
+              "and must match the model in outcome and in as_dict/keys/symrefs/membership/reads; thorough: git for-each-ref / symbolic-ref agree on every distinct files state. "
+              "check_ref_format is compared with an independent transcription of git-check-ref-format(1) and the git binary on all ~90k strings <=4 over 17 characters plus token strings."),
+        note="Trusted: the map model in props/C16.py (for colliding names with a failing condition both 'refused' and False are accepted), refmodels/refname.py (cross-checked against git), git 2.39.5.",
+    ),
     "C11": dict(
         engine="E4 enum + E5 mutfault", category="exploration",
         technique="bounded-exhaustive enumeration of index contents x versions; independent format parser + C git as oracles; exhaustive single-fault damage",
